@@ -235,7 +235,7 @@ func zzC14Elem(kind int, v int64) slip.Object {
 func zzC14NewCall(kind, n, keyMode, tstMode int, withCount bool) *zzC14Call {
 	c := &zzC14Call{kind: kind, n: n, keyMode: keyMode, tstMode: tstMode}
 	c.vals = zzC14Elems(kind, n)
-	if kind == zzC14String && keyMode != 2 && keyMode != 8 {
+	if kind == zzC14String && keyMode != 2 && keyMode != 8 && keyMode != 6 {
 		b := vrt.Byte("itemc")
 		vrt.Assume(b < 128)
 		c.item = int64(b)
@@ -254,8 +254,12 @@ func zzC14NewCall(kind, n, keyMode, tstMode int, withCount bool) *zzC14Call {
 		vrt.Assume(-1 <= c.end && c.end <= int64(n)+1)
 	}
 	c.feMode = vrt.Choice("feMode", 3)
+	// the keyword parsers treat every keyword independently: the explicit nil
+	// forms of :from-end and :count are combined with absent bounds only
+	vrt.Assume(!(c.feMode == 1 && (c.hasS || c.endMode != 0)))
 	if withCount {
 		c.cntMode = vrt.Choice("cntMode", 3)
+		vrt.Assume(!(c.cntMode == 1 && (c.hasS || c.endMode != 0 || c.feMode != 0)))
 		if c.cntMode == 2 {
 			c.count = vrt.Int64("count")
 			vrt.Assume(-1 <= c.count && c.count <= int64(n)+1)
@@ -346,23 +350,15 @@ func (c *zzC14Call) bounds() (s, e int64, cls int) {
 // sat is the reference "element i satisfies the test": test(item, key(e_i)).
 // pred: the one argument predicate form (-if functions): pred(key(e_i)).
 func (c *zzC14Call) sat(i int, pred bool) bool {
-	k := c.vals[i]
-	keyCh := c.kind == zzC14String
-	if c.keyMode == 2 || c.keyMode == 8 {
-		k++
-		keyCh = false
+	km := c.keyMode
+	if km == 8 {
+		km = 2 // the primary value of (values (1+ x) 0)
 	}
+	k, keyCh := zzC14Key(c.kind, km, c.vals[i])
 	if pred {
-		if keyCh {
-			return zzC14Pivot < k
-		}
-		return 0 < k
+		return zzC14Pred1(k, keyCh)
 	}
-	if c.tstMode == 3 {
-		return c.item < k
-	}
-	// default test: same type and same value
-	return keyCh == c.itemCh && c.item == k
+	return zzC14Test2(c.tstMode, c.item, c.itemCh, k, keyCh)
 }
 
 func (c *zzC14Call) fromEnd() bool { return c.feMode == 2 }
@@ -648,7 +644,7 @@ func zzC14Carves(c *zzC14Call, fam string, s, e int64, cls int) {
 	// compared instead of the primary value
 	vrt.Carve("C14-key-multiple-values", c.keyMode == 8)
 	// :count nil is the CLHS default ("integer or nil") but slip rejects it
-	vrt.Carve("C14-nil-designator-rejected", c.cntMode == 1 && fam == "remove")
+	vrt.Carve("C14-valid-args-rejected", c.cntMode == 1 && fam == "remove")
 	// :end beyond the length is silently clamped to the length
 	vrt.Carve("C14-invalid-bounds-accepted", cls == zzC14BEndBig)
 	// :start beyond :end (or beyond the length) is silently an empty range;
